@@ -18,7 +18,10 @@ Zeros == {"bits:0000000000000000", "bits:8000000000000000", "bits:00000000", "bi
 FloatEq(x, y) == x = y \/ (x \in Zeros /\ y \in Zeros)
 SeqEqBy(Eq(_, _), a, b) == Len(a) = Len(b) /\ \A j \in 1..Len(a) : Eq(a[j], b[j])
 
-LeafEq(a, b)  == a.name = b.name /\ IntEq(a.n, b.n)
+\* chain: the leaves nested below this one (the same record type inside itself), outermost first
+LeafEq(a, b)  == /\ a.name = b.name /\ IntEq(a.n, b.n)
+                 /\ Len(a.chain) = Len(b.chain)
+                 /\ \A j \in 1..Len(a.chain) : a.chain[j].name = b.chain[j].name /\ IntEq(a.chain[j].n, b.chain[j].n)
 OptLeafEq(a, b) == a.p = b.p /\ (a.p => LeafEq(a.v, b.v))
 InnerEq(a, b) == a.label = b.label /\ a.flag = b.flag /\ OptLeafEq(a.leaf, b.leaf)
 
